@@ -25,6 +25,14 @@ use dv_harness::*;
 use std::collections::{BTreeMap, BTreeSet};
 
 const APEX: &str = "zone.test.";
+/// How names are spelled towards the implementation (DNS names compare case-insensitively, so
+/// nothing may depend on it): bit 0 = the zone is created with a mixed-case apex name, bit 1 = the apex
+/// part of owner names in operations is spelled differently, bit 2 = the relative labels of owner
+/// names are upper-cased.  The model only ever sees lower-cased relative names.
+static SPELL: std::sync::atomic::AtomicU8 = std::sync::atomic::AtomicU8::new(0);
+fn spell() -> u8 { SPELL.load(std::sync::atomic::Ordering::SeqCst) }
+fn apex_for_zone() -> Name<Bytes> { Name::bytes_from_str(if spell() & 1 != 0 { "Zone.TEST." } else { APEX }).unwrap() }
+fn mixed(s: &str) -> String { s.chars().enumerate().map(|(i, c)| if i % 2 == 0 { c.to_ascii_uppercase() } else { c }).collect() }
 
 const T_A: u16 = 1;
 const T_NS: u16 = 2;
@@ -59,8 +67,17 @@ impl Rel {
     fn parent(&self) -> Rel { let mut v = self.0.clone(); v.pop(); Rel(v) }
     fn is_prefix_of(&self, o: &Rel) -> bool { o.0.len() >= self.0.len() && o.0[..self.0.len()] == self.0[..] }
     fn abs(&self) -> Name<Bytes> {
-        if self.0.is_empty() { return Name::bytes_from_str(APEX).unwrap(); }
-        Name::bytes_from_str(&format!("{}.{}", self.show(), APEX)).unwrap()
+        let sp = spell();
+        let apex = if sp & 2 != 0 { "zONE.tesT." } else { APEX };
+        if self.0.is_empty() { return Name::bytes_from_str(apex).unwrap(); }
+        let rel = if sp & 4 != 0 { self.show().to_ascii_uppercase() } else { self.show() };
+        Name::bytes_from_str(&format!("{}.{}", rel, apex)).unwrap()
+    }
+    /// the name as a client might spell it: 1 = apex labels upper-case, 2 = every label in mixed case
+    fn abs_query(&self, variant: u8) -> Name<Bytes> {
+        let (rel, apex) = match variant { 1 => (self.show(), "ZONE.TEST.".to_string()), 2 => (mixed(&self.show()), mixed(APEX)), _ => (self.show(), APEX.to_string()) };
+        if self.0.is_empty() { return Name::bytes_from_str(&apex).unwrap(); }
+        Name::bytes_from_str(&format!("{}.{}", rel, apex)).unwrap()
     }
     fn from_abs(n: &impl ToName) -> Option<Rel> {
         let apex = Name::bytes_from_str(APEX).unwrap();
@@ -191,6 +208,7 @@ impl CutD {
 
 #[derive(Clone, Debug)]
 enum Op {
+    Spell(u8),
     BRr(Rel, RrsetD),
     BCut(CutD),
     BCname(Rel, u32, Rd),
@@ -202,6 +220,7 @@ enum Op {
 impl Op {
     fn show(&self) -> String {
         match self {
+            Op::Spell(n) => format!("sp:{}", n),
             Op::BRr(n, r) => format!("b:{}:{}:{}:{}", n.show(), r.rtype, r.ttl, r.show_rds()),
             Op::BCut(c) => format!("c:{}", c.show()),
             Op::BCname(n, ttl, rd) => format!("n:{}:{}:{}", n.show(), ttl, rd.show()),
@@ -225,7 +244,7 @@ impl Op {
             Op::WDrop => "wd".into(),
         }
     }
-    fn is_history(&self) -> bool { !matches!(self, Op::BRr(..) | Op::BCut(..) | Op::BCname(..) | Op::ZRec(..)) }
+    fn is_history(&self) -> bool { !matches!(self, Op::Spell(_) | Op::BRr(..) | Op::BCut(..) | Op::BCname(..) | Op::ZRec(..)) }
 }
 
 fn show_ops(ops: &[Op]) -> String { ops.iter().map(|o| o.show()).collect::<Vec<_>>().join(" ") }
@@ -252,7 +271,8 @@ async fn node_at(root: &Box<dyn WritableZoneNode>, path: &Rel) -> Option<Box<dyn
 }
 
 async fn run_ops(ops: &[Op]) -> Built {
-    let apex = Name::bytes_from_str(APEX).unwrap();
+    SPELL.store(match ops.first() { Some(Op::Spell(n)) => *n, _ => 0 }, std::sync::atomic::Ordering::SeqCst);
+    let apex = apex_for_zone();
     let mut errs: Vec<String> = vec![];
     let mut builder: Option<ZoneBuilder> = Some(ZoneBuilder::new(apex.clone(), Class::IN));
     let mut zonefile: Option<Zonefile> = None;
@@ -265,6 +285,7 @@ async fn run_ops(ops: &[Op]) -> Built {
             zone = Some(finish_build(&mut builder, &mut zonefile, &mut errs, i));
         }
         match op {
+            Op::Spell(_) => {}
             Op::BRr(n, r) => { if let Err(_) = builder.as_mut().unwrap().insert_rrset(&n.abs(), r.shared()) { errs.push(format!("{}:OutOfZone", i)); } }
             Op::BCut(c) => {
                 let zc = c.zonecut();
@@ -402,8 +423,9 @@ impl Obs {
     fn dup_free(&self) -> bool { self.n_answer == self.answer.len() && self.n_auth == self.authority.len() && self.n_add == self.additional.len() }
 }
 
-fn observe(zone: &Zone, q: &Rel, qtype: u16, oz: bool) -> Obs {
-    let qname = if oz { Name::bytes_from_str("x.elsewhere.test.").unwrap() } else { q.abs() };
+fn observe(zone: &Zone, q: &Rel, qtype: u16, oz: bool) -> Obs { observe_v(zone, q, qtype, oz, 0) }
+fn observe_v(zone: &Zone, q: &Rel, qtype: u16, oz: bool, variant: u8) -> Obs {
+    let qname = if oz { Name::bytes_from_str("x.elsewhere.test.").unwrap() } else { q.abs_query(variant) };
     let rt = Rtype::from_int(qtype);
     let ans = match zone.read().query(qname.clone(), rt) { Ok(a) => a, Err(_) => return Obs { out_of_zone: true, ..Default::default() } };
     let mut qb = MessageBuilder::new_vec().question();
@@ -631,6 +653,7 @@ fn replay(ops: &[Op]) -> Replayed {
                 for o in owners { if let Some(x) = expected_special(&comm, &o) { sh.insert(o, x); } } }
         }
         match op {
+            Op::Spell(_) => {}
             Op::BRr(n, r) => { comm.set(n, r); if is_special_key(n, r.rtype) { ps.set(n, r); } }
             Op::BCut(c) => { if !c.name.0.is_empty() { comm.set(&c.name, &c.ns); if let Some(d) = &c.ds { comm.set(&c.name, d); } sh.insert(c.name.clone(), sp_of_cut(c)); } }
             Op::BCname(n, ttl, rd) => { if !n.0.is_empty() { let r = RrsetD { rtype: T_CNAME, ttl: *ttl, rds: vec![rd.clone()] }; comm.set(n, &r);
@@ -1083,6 +1106,52 @@ fn gen_write_special_history(r: &mut Rng, start: &Flat) -> Vec<Op> {
     ops
 }
 
+/// Two writer sessions: the first one adds names through the updater / write interface (so the tree gets
+/// nodes, empty non-terminals and markers that only writers create) and publishes them; the second one
+/// replaces the whole content (DeleteAllRecords, or remove_all at the apex or at a node) by `target`.
+fn gen_two_session_history(r: &mut Rng, start: &Flat, target: &Flat) -> Vec<Op> {
+    let mut ops = zonefile_ops(start, r);
+    let mut tok = 9900u32;
+    let pool: Vec<Rel> = start.m.keys().map(|k| k.0.clone()).collect();
+    let mut added: Vec<Rel> = vec![];
+    let via_updater = r.chance(2, 3);
+    ops.push(if via_updater { Op::UNew } else { Op::WOpen });
+    for _ in 0..r.range(1, 4) {
+        // deep names: their ancestors become empty non-terminals created by a writer
+        let mut n = gen_name(r, &pool, 2);
+        for _ in 0..r.range(1, 2) { n = n.child(*r.pick(&["a", "b", "c"])); }
+        if (1..=n.0.len()).any(|k| { let p = Rel(n.0[..k].to_vec()); start.has(&p, T_NS) || start.has(&p, T_CNAME) }) { continue; }
+        tok += 1;
+        let ttl = start.m.get(&(n.clone(), T_A)).map(|e| e.0).unwrap_or(101);
+        let x = Rec { owner: n.clone(), rtype: T_A, ttl, rd: Rd::Tok(tok) };
+        if via_updater { ops.push(Op::UAdd(x)); } else { ops.push(Op::WRr(n.clone(), RrsetD { rtype: T_A, ttl, rds: vec![Rd::Tok(tok)] })); }
+        added.push(n);
+    }
+    let st = soa_tok(start).unwrap_or(1);
+    ops.push(if via_updater { Op::UFin(st) } else { Op::WCommit });
+    // second session: replace
+    match r.below(3) {
+        0 => {
+            ops.push(Op::UNew); ops.push(Op::UDelAll);
+            for x in target.records() { if x.rtype != T_SOA { ops.push(Op::UAdd(x)); } }
+            ops.push(Op::UFin(soa_tok(target).unwrap_or(st)));
+        }
+        1 => {
+            ops.push(Op::WOpen); ops.push(Op::WRemoveAll(Rel::apex()));
+            let keys: Vec<(Rel, u16)> = target.m.keys().cloned().collect();
+            for k in keys { let b = &target.m[&k]; ops.push(Op::WRr(k.0.clone(), RrsetD { rtype: k.1, ttl: b.0, rds: b.1.iter().cloned().collect() })); }
+            ops.push(Op::WCommit);
+        }
+        _ => {
+            // remove_all at the parent of one of the names added by the first session
+            ops.push(Op::WOpen);
+            if let Some(n) = added.first() { ops.push(Op::WRemoveAll(n.parent())); }
+            ops.push(Op::WCommit);
+        }
+    }
+    ops
+}
+
 /// A write-interface history ending in `target` (only RRset-level calls, so that
 /// the content is well defined).
 fn gen_write_history(r: &mut Rng, start: &Flat, target: &Flat) -> (Vec<Op>, Flat) {
@@ -1369,15 +1438,20 @@ impl Ctx {
                 Err(e) => { self.out.check(false, "walk_panics", &case, &e); self.out.case(&case, "Panic", true, kind); }
             }
         }
-        for (q, t) in queries {
-            let case = format!("{} ? {} {}", ops_s, q.show(), t);
+        // every owner and query name of this harness lies inside the zone, however it is spelled
+        self.out.check(!built.errs.iter().any(|e| e.ends_with(":OutOfZone")), "in_zone_owner_rejected_out_of_zone", &ops_s, &format!("errors: {:?}", built.errs));
+        for (qi, (q, t)) in queries.iter().enumerate() {
+            // every fifth query spells the name differently (upper-case apex labels / mixed case throughout)
+            let qv: u8 = if qi % 5 == 4 { 1 + ((qi / 5) % 2) as u8 } else { 0 };
+            let case = if qv == 0 { format!("{} ? {} {}", ops_s, q.show(), t) } else { format!("{} ? {} {} v{}", ops_s, q.show(), t, qv) };
             let zone = built.zone.clone();
             let (qq, tt) = (q.clone(), *t);
-            let obs = match catch_mut(move || observe(&zone, &qq, tt, false)) {
+            let obs = match catch_mut(move || observe_v(&zone, &qq, tt, false, qv)) {
                 Ok(o) => o,
                 Err(e) => { self.out.check(false, "query_panics", &case, &e); self.out.case(&case, "Panic", true, kind); continue; }
             };
             self.out.case(&case, &obs.line(&built.errs, *t), obs.rcode != 3, &format!("{}/{}", kind, obs.kind()));
+            self.out.check(!obs.out_of_zone, "in_zone_name_reported_out_of_zone", &case, "query() returned OutOfZone for a name below the apex");
             if let Some(z) = content {
                 if !z.wf() { continue; }
                 let ql = Rel(q.0.iter().map(|l| l.to_ascii_lowercase()).collect());
@@ -1537,10 +1611,15 @@ fn main() {
         if !z.wf() { cx.out.count("gen/not_wf_skipped"); continue; }
         let qs = gen_queries(&mut r, &z, &[], n_q);
         // (1) zone-file path and direct builder calls
-        let zo = zonefile_ops(&z, &mut r);
+        let mut zo = zonefile_ops(&z, &mut r);
+        // a quarter of the zones is created / populated with differently spelled names
+        let sp: u8 = if i % 4 == 1 { 1 + r.below(7) as u8 } else { 0 };
+        if sp != 0 { zo.insert(0, Op::Spell(sp)); }
         cx.eval("zonefile", &zo, Some(&z), &qs, None);
+        if sp != 0 { zo.remove(0); }
         if i % 2 == 0 {
-            let bo = builder_ops(&z, &mut r);
+            let mut bo = builder_ops(&z, &mut r);
+            if i % 8 == 2 { bo.insert(0, Op::Spell(1 + r.below(7) as u8)); }
             cx.eval("builder", &bo, Some(&z), &qs[..qs.len() / 2], None);
         }
         // (1b) record lists that Zonefile::insert accepts but that cannot be built: a delegation with DS
@@ -1565,9 +1644,23 @@ fn main() {
         if !start.wf() { continue; }
         let extra: Vec<Rel> = start.m.keys().map(|k| k.0.clone()).collect();
         let hq = gen_queries(&mut r, &z, &extra, n_q / 2);
-        let (hops, content) = if i % 3 == 2 { gen_write_history(&mut r, &start, &z) } else { gen_updater_history(&mut r, &start, &z) };
+        let (mut hops, content) = if i % 3 == 2 { gen_write_history(&mut r, &start, &z) } else { gen_updater_history(&mut r, &start, &z) };
+        if i % 4 == 3 { hops.insert(0, Op::Spell(1 + r.below(7) as u8)); }
         let rz = if content.wf() { cx.run(&zonefile_ops(&content, &mut r)).map(|b| b.zone) } else { None };
         cx.eval(if i % 3 == 2 { "write_history" } else { "updater_history" }, &hops, Some(&content), &hq, rz.as_ref());
+        // (2a) a first writer session creates nodes, a second one replaces the content
+        {
+            let plain_target = if r.chance(1, 2) { let mut t = z.clone(); t.m.retain(|k, _| k.0 .0.is_empty() || ![T_NS, T_DS, T_CNAME].contains(&k.1)); t } else { z.clone() };
+            let sops = gen_two_session_history(&mut r, &start, &plain_target);
+            let scontent = replay(&sops).content;
+            let mut extra: Vec<Rel> = start.m.keys().map(|k| k.0.clone()).collect();
+            for o in &sops { match o { Op::UAdd(x) => extra.push(x.owner.clone()), Op::WRr(n, _) => extra.push(n.clone()), _ => {} } }
+            let sq = gen_queries(&mut r, &scontent, &extra, n_q / 2);
+            if scontent.wf() {
+                let rz = cx.run(&zonefile_ops(&scontent, &mut r)).map(|b| b.zone);
+                cx.eval("two_session_history", &sops, Some(&scontent), &sq, rz.as_ref());
+            } else { cx.out.count("gen/two_session_not_wf_t2_only"); cx.eval("two_session_history", &sops, None, &sq, None); }
+        }
         // (2b) one version touching the same RRsets several times
         if i % 2 == 0 {
             let sops = gen_same_version_history(&mut r, &z);
